@@ -167,6 +167,47 @@ fn check_args_mixed(c: &ArgCase) -> Verdict {
     let mut sorted_idx = order.clone();
     sorted_idx.sort_unstable();
     vensure!(sorted_idx == (0..c.names.len()).collect::<Vec<_>>(), "not-a-permutation", "sorting {:?} returned indices {order:?}", c.names);
+    // The comparator is a total preorder on every list (what `sort_by`
+    // requires): antisymmetric, transitive, and the result is ordered by it.
+    let n = refs.len();
+    let cmp = |i: usize, j: usize| pure::cmp_arg_names(c.attr, &refs, i, j);
+    for i in 0..n {
+        for j in 0..n {
+            let (ij, ji) = (cmp(i, j), cmp(j, i));
+            vensure!(ij == ji.reverse(), "mixed:not-antisymmetric", "cmp({:?}, {:?}) = {ij:?} but cmp({:?}, {:?}) = {ji:?} (attribute {})", refs[i], refs[j], refs[j], refs[i], c.attr);
+        }
+    }
+    if n <= 14 {
+        for i in 0..n {
+            for j in 0..n {
+                if cmp(i, j) == std::cmp::Ordering::Greater {
+                    continue;
+                }
+                for k in 0..n {
+                    if cmp(j, k) != std::cmp::Ordering::Greater {
+                        let strict = cmp(i, j) == std::cmp::Ordering::Less || cmp(j, k) == std::cmp::Ordering::Less;
+                        let ik = cmp(i, k);
+                        vensure!(
+                            ik != std::cmp::Ordering::Greater && (!strict || ik == std::cmp::Ordering::Less),
+                            "mixed:not-transitive",
+                            "{:?} <= {:?} <= {:?} but cmp({:?}, {:?}) = {ik:?} (attribute {})",
+                            refs[i],
+                            refs[j],
+                            refs[k],
+                            refs[i],
+                            refs[k],
+                            c.attr
+                        );
+                    }
+                }
+            }
+        }
+    }
+    for w in order.windows(2) {
+        let o = cmp(w[0], w[1]);
+        let bad = if c.reverse { o == std::cmp::Ordering::Less } else { o == std::cmp::Ordering::Greater };
+        vensure!(!bad, "mixed:not-sorted", "sorted order places {:?} before {:?} (attribute {}, reverse {})", refs[w[0]], refs[w[1]], c.attr, c.reverse);
+    }
     let numeric = c.names.iter().filter(|n| n.parse::<f64>().is_ok()).count();
     Verdict::pass(numeric > 0 && numeric < c.names.len() && c.names.len() >= 3)
 }
